@@ -306,7 +306,9 @@ func rulesC17(r *Run) {
 	ruleSecureKinds(r, "R1")
 	ruleSecureNoSkip(r, "R1")
 	ruleTimeExemptionOnElement(r, "R1") // untagged data is left intact
-	r.Expect("R1", 26)
+	ruleScrubLoopsRunToEnd(r, "R1")
+	ruleScrubbedCopyStoredBack(r, "R1")
+	r.Expect("R1", 32)
 
 	r.Kind("R2", "K3")
 	ruleCloneScrub(r, "R2")
@@ -1841,4 +1843,178 @@ func freshAppend(info *types.Info, c *ast.CallExpr, body *ast.BlockStmt) bool {
 		}
 	}
 	return false
+}
+
+// ruleScrubLoopsRunToEnd (second mutation sweep): the scrubber looks at every field, element and map entry. In the functions of
+// the clone package that Secure reaches, no `break` leaves a loop over fields/elements/keys and no `return` sits inside
+// one (a break that belongs to a switch or select inside the loop is not a break of the loop; function literals are
+// separate). `continue` → `break` behind the unexported-field test, or behind the time.Time exemption, left every later
+// field or entry unscrubbed and passed every test.
+func ruleScrubLoopsRunToEnd(r *Run, rule string) {
+	pkg := r.P.Pkgs[pkgClone]
+	if pkg == nil {
+		r.Unresolved(rule, "package clone")
+		return
+	}
+	g := r.P.CallGraph()
+	reach := g.Reach([]string{cloneKey("Secure")}, func(e CallEdge) bool { return strings.HasPrefix(e.Callee, pkgClone+".") })
+	reach[cloneKey("Secure")] = ""
+	n := 0
+	var keys []string
+	for k := range reach {
+		keys = append(keys, k)
+	}
+	sort.Strings(keys)
+	for _, k := range keys {
+		fn := r.P.Funcs[k]
+		if fn == nil || fn.Orig == nil || fn.Orig.Body == nil {
+			continue
+		}
+		// walk with a stack of break targets
+		var visit func(n ast.Node, loops int, target []string) string
+		visit = func(node ast.Node, loops int, target []string) string {
+			bad := ""
+			ast.Inspect(node, func(x ast.Node) bool {
+				if x == nil || bad != "" {
+					return false
+				}
+				if x == node {
+					return true
+				}
+				switch v := x.(type) {
+				case *ast.FuncLit:
+					return false
+				case *ast.ForStmt:
+					bad = visit(v.Body, loops+1, append(append([]string{}, target...), "loop"))
+					return false
+				case *ast.RangeStmt:
+					bad = visit(v.Body, loops+1, append(append([]string{}, target...), "loop"))
+					return false
+				case *ast.SwitchStmt:
+					bad = visit(v.Body, loops, append(append([]string{}, target...), "switch"))
+					return false
+				case *ast.TypeSwitchStmt:
+					bad = visit(v.Body, loops, append(append([]string{}, target...), "switch"))
+					return false
+				case *ast.SelectStmt:
+					bad = visit(v.Body, loops, append(append([]string{}, target...), "switch"))
+					return false
+				case *ast.BranchStmt:
+					if v.Tok == token.BREAK && v.Label == nil && len(target) > 0 && target[len(target)-1] == "loop" {
+						bad = "a break leaves the loop at line " + itoa(r.P.Fset.Position(v.Pos()).Line)
+					}
+					if v.Tok == token.BREAK && v.Label != nil && loops > 0 {
+						bad = "a labelled break at line " + itoa(r.P.Fset.Position(v.Pos()).Line)
+					}
+					if v.Tok == token.GOTO && loops > 0 {
+						bad = "a goto inside a loop at line " + itoa(r.P.Fset.Position(v.Pos()).Line)
+					}
+				case *ast.ReturnStmt:
+					if loops > 0 {
+						bad = "a return inside the loop at line " + itoa(r.P.Fset.Position(v.Pos()).Line)
+					}
+				}
+				return true
+			})
+			return bad
+		}
+		hasLoop := false
+		ast.Inspect(fn.Orig.Body, func(x ast.Node) bool {
+			switch x.(type) {
+			case *ast.ForStmt, *ast.RangeStmt:
+				hasLoop = true
+			}
+			return !hasLoop
+		})
+		if !hasLoop {
+			continue
+		}
+		n++
+		bad := visit(fn.Orig.Body, 0, nil)
+		r.Check(rule, "scrub-loop-runs-to-end:"+ShortFn(k), fn.Decl.Pos(), bad == "", "in %s %s: the fields, elements or entries behind that point are never examined, their secure-tagged values survive", ShortFn(k), bad)
+	}
+	if n == 0 {
+		r.Unresolved(rule, "loops in the functions Secure reaches")
+	}
+}
+
+// ruleScrubbedCopyStoredBack (second mutation sweep): where the scrubber has to work on a COPY — a struct held by value in a map,
+// slice or interface cannot be changed in place, so it is rebuilt with noAddrStruct or reflect.New — the scrubbed copy
+// is stored back (SetMapIndex / Set) in the same case of the kind dispatch. Without the store the original, unscrubbed
+// value stays where it was.
+func ruleScrubbedCopyStoredBack(r *Run, rule string) {
+	pkg := r.P.Pkgs[pkgClone]
+	if pkg == nil {
+		r.Unresolved(rule, "package clone")
+		return
+	}
+	info := pkg.TypesInfo
+	n := 0
+	for _, fn := range r.P.sortedFuncs() {
+		if fn.Pkg != pkg || fn.Orig == nil || fn.Orig.Body == nil || !strings.HasPrefix(fn.Obj.Name(), "secure") {
+			continue
+		}
+		ord := 0
+		ast.Inspect(fn.Orig.Body, func(x ast.Node) bool {
+			cc, ok := x.(*ast.CaseClause)
+			if !ok {
+				return true
+			}
+			// the copies made in this case
+			var copies []types.Object
+			for _, st := range cc.Body {
+				ast.Inspect(st, func(y ast.Node) bool {
+					as, ok := y.(*ast.AssignStmt)
+					if !ok || len(as.Lhs) != 1 || len(as.Rhs) != 1 {
+						return true
+					}
+					rhs := ExprStr(as.Rhs[0])
+					if strings.HasPrefix(rhs, "noAddrStruct(") || strings.HasPrefix(rhs, "reflect.New(") {
+						if o := ObjOf(info, as.Lhs[0]); o != nil {
+							copies = append(copies, o)
+						}
+					}
+					return true
+				})
+			}
+			if len(copies) == 0 {
+				return true
+			}
+			n++
+			ord++
+			stored := false
+			for _, st := range cc.Body {
+				ast.Inspect(st, func(y ast.Node) bool {
+					c, ok := y.(*ast.CallExpr)
+					if !ok {
+						return true
+					}
+					sel, ok := ast.Unparen(c.Fun).(*ast.SelectorExpr)
+					if !ok || (sel.Sel.Name != "SetMapIndex" && sel.Sel.Name != "Set") {
+						return true
+					}
+					// the receiver must not be the copy itself (cp.Set(elem) fills the copy, it does not store it)
+					for _, cp := range copies {
+						if ObjOf(info, rootIdent(sel.X)) == cp {
+							return true
+						}
+					}
+					for _, a := range c.Args {
+						for _, cp := range copies {
+							if mentionsObj(info, a, cp) {
+								stored = true
+							}
+						}
+					}
+					return true
+				})
+			}
+			r.Check(rule, "scrubbed-copy-stored-back:"+ShortFn(fn.Key)+"#"+itoa(ord), cc.Pos(), stored,
+				"in %s a case of the kind dispatch scrubs a copy of the value (noAddrStruct / reflect.New) and never stores the copy back with Set or SetMapIndex: the unscrubbed original stays in the map, slice or interface", ShortFn(fn.Key))
+			return true
+		})
+	}
+	if n == 0 {
+		r.Unresolved(rule, "kind-dispatch cases that scrub a copy")
+	}
 }
